@@ -167,6 +167,10 @@ def oracle(case):
         if code == 0:
             if outcome[0] != "silent":
                 bad = "abort(0) must decline the request"
+        elif code == 200 and kw == "0" and 200 not in c["us"]:
+            # the success status has no page: the empty success answer, every time it is asked for
+            if status not in (200, 204) or body:
+                bad = "abort(200) answered %s with %d body bytes instead of an empty success answer" % (status, len(body))
         elif code == 200 or kw == "1" or (code == 401 and c["digest"]):
             pass
         elif kw in ("2", "3") and code not in W.ERROR_KW_PAGES and code not in c["us"] and code in (304, 500):
